@@ -1,7 +1,7 @@
 import Mutagen.Proofs.Executability
-import Mutagen.Proofs.Reconcile
+import Mutagen.Proofs.ReconcileShape
 import Mutagen.Proofs.ReconcileLeaf
-import Mutagen.Proofs.Apply
+import Mutagen.Proofs.ApplyAt
 import Mutagen.Proofs.Valid
 /-!
 The ideal cycle at a path where both endpoints hold a file, one endpoint (P)
@@ -9,7 +9,7 @@ preserving executability and the other (N) not: what the preserving side
 records at that path after `PropagateExecutability`, `Reconcile` and `Apply`.
 -/
 namespace Mutagen.Proofs.ExecCycle
-open Mutagen.Model Mutagen.Proofs.Executability Mutagen.Proofs.Reconcile Mutagen.Proofs.ReconcileLeaf
+open Mutagen.Model Mutagen.Proofs.Executability Mutagen.Proofs.ReconcileShape Mutagen.Proofs.ReconcileLeaf
   Mutagen.Proofs.Valid
 
 /-- The non-preserving side's content after propagation, as a function on `Option`. -/
@@ -178,7 +178,7 @@ theorem after_cycle (mode : Mode) (A P N : Option Entry) (nAlpha : Bool) (q : Pa
         simp only [isKind, beq_iff_eq] at hk; simp [hk]
       simp [contents, valid_sync_nondir_children e hv this]
   have hkN' : ({ pN with executable := execRule (getPath A q) (leaf pP) pN } : Props).kind = .file := hkN
-  refine Apply.apply_preserves (After mode nAlpha (getPath A q) pP _) q _ ?_ P P' ?_ happ
+  refine ApplyAt.apply_preserves (After mode nAlpha (getPath A q) pP _) q _ ?_ P P' ?_ happ
   · intro c hc hpre
     cases nAlpha with
     | true =>
